@@ -291,6 +291,28 @@ def spec_to_impl(tier, ev, verd, stats):
 
 # ---------------------------------------------------------------------------------- I->S
 
+def validate_events(module, events, path, ev, on_reject, timeout=2400, heap="4g", max_rejects=8):
+    """TLC trace validation; an event TLC rejects (or cannot even evaluate: malformed observation) is handed to
+    `on_reject`, removed, and the rest is validated again.  Returns the number of accepted events."""
+    for _ in range(max_rejects):
+        vlib.write_ndjson(path, events)
+        t = vlib.validate_trace(module, module + ".cfg", path, timeout=timeout, heap=heap)
+        ev.add_tlc(t)
+        if t.ok:
+            return len(events), events
+        if t.postcondition_failed and t.replay:
+            line, e, why = t.replay[0]["line"], t.replay[0]["ev"], "rejected"
+        elif t.error and 1 <= t.diameter <= len(events):
+            # TLC threw while evaluating the next event (the observation does not even have the shape of a value):
+            # `diameter` states were reached, so events 1..diameter-1 were matched
+            line, e, why = t.diameter, events[t.diameter - 1], "not evaluable (%s)" % t.error[:120]
+        else:
+            raise vlib.ToolError("%s failed to run: %s\n%s" % (module, t.error, t.stdout[-2000:]))
+        on_reject(line, e, why)
+        events = [x for x in events if x != e]
+    return 0, events
+
+
 def layout_trace(ev, verd, stats):
     """rustc's layout of every table type must be what Layout says"""
     r = vlib.run_bin("c05", ["--layouts"], timeout=300)
@@ -302,25 +324,15 @@ def layout_trace(ev, verd, stats):
     stats["layout_events"] = len(events)
     stats["layout_enum_events"] = sum(1 for e in events if e["offs"])
     path = os.path.join(vlib.workdir(PID, "trace"), "layout.ndjson")
-    accepted = 0
-    for _ in range(6):
-        vlib.write_ndjson(path, events)
-        t = vlib.validate_trace("TraceLayout", "TraceLayout.cfg", path, timeout=900)
-        ev.add_tlc(t)
-        if t.ok:
-            accepted = len(events)
-            break
-        if not (t.postcondition_failed and t.replay):
-            raise vlib.ToolError("layout trace validation failed to run: %s\n%s" % (t.error, t.stdout[-2000:]))
-        un = t.replay[0]
-        e = un["ev"]
+
+    def rejected(line, e, why):
         verd.report({"route": "layout", "kind_of_failure": "layout-rejected", "ty": term_id(e["ty"]),
                      "zst_val_arg_before": "no", "passby": e.get("passby", "?")},
-                    "rustc and the layout rule disagree on %s: measured size %s align %s payload offsets %s, passed as %s "
-                    "(%s bytes)" % (term_id(e["ty"]), e.get("size"), e.get("align"), e.get("offs"), e.get("passby"),
+                    "rustc and the layout rule disagree on %s (%s): measured size %s align %s payload offsets %s, passed as %s "
+                    "(%s bytes)" % (term_id(e["ty"]), why, e.get("size"), e.get("align"), e.get("offs"), e.get("passby"),
                                     e.get("param_size")), {"event": e, "trace": path})
-        # the rest of the table is still validated
-        events = [x for x in events if x != e]
+
+    accepted, _ = validate_events("TraceLayout", events, path, ev, rejected, timeout=900)
     ev.traces += accepted
     stats["layout_events_accepted"] = accepted
     ev.impl_actions.add("Measured")
@@ -388,24 +400,15 @@ def boundary_trace(tier, ev, verd, stats):
         events.append({"route": c["route"], "vec": c["vec"], "vals": sent, "pos": c["pos"], "k": c["k"], "obs": res["o"]})
         ev.impl_actions.add("Transfer/" + c["route"])
     path = os.path.join(vlib.workdir(PID, "trace"), "boundary.ndjson")
-    accepted = 0
-    for _ in range(6):
-        vlib.write_ndjson(path, events)
-        t = vlib.validate_trace("TraceBoundary", "TraceBoundary.cfg", path, timeout=2400, heap="6g")
-        ev.add_tlc(t)
-        if t.ok:
-            accepted = len(events)
-            break
-        if not (t.postcondition_failed and t.replay):
-            raise vlib.ToolError("boundary trace validation failed to run: %s\n%s" % (t.error, t.stdout[-2000:]))
-        un = t.replay[0]
-        e = un["ev"]
+
+    def rejected(line, e, why):
         c = {"route": e["route"], "vec": e["vec"], "vals": e["vals"], "pos": e["pos"], "k": e["k"]}
         verd.report(sig_of(c, "trace-rejected"),
-                    "recorded transfer is not a behaviour of Boundary (line %s): route %s, types %s, sent %s, the receiving side "
-                    "showed %s" % (un["line"], e["route"], [term_id(t) for t in e["vec"]], json.dumps(e["vals"])[:400],
-                                   json.dumps(e["obs"])[:400]), {"event": e, "trace": path})
-        events = [x for x in events if x != e]
+                    "recorded transfer is not a behaviour of Boundary (line %s, %s): route %s, types %s, sent %s, the receiving "
+                    "side showed %s" % (line, why, e["route"], [term_id(t) for t in e["vec"]], json.dumps(e["vals"])[:400],
+                                        json.dumps(e["obs"])[:400]), {"event": e, "trace": path})
+
+    accepted, events = validate_events("TraceBoundary", events, path, ev, rejected, heap="6g")
     ev.traces += accepted
     stats["random_events"] = len(events)
     stats["random_events_accepted"] = accepted
@@ -443,9 +446,15 @@ def run(tier):
                "observations Boundary prescribes, executed on the real crate; distinct = distinct (route, types, values, "
                "position, observed position); non-trivial = the value under test is not the single value of a zero-sized type "
                "(those only show something through their neighbours)")
-    spec_to_impl(tier, ev, verd, stats)
-    layout_trace(ev, verd, stats)
-    boundary_trace(tier, ev, verd, stats)
+    try:
+        spec_to_impl(tier, ev, verd, stats)
+        layout_trace(ev, verd, stats)
+        boundary_trace(tier, ev, verd, stats)
+    except vlib.ToolError as e:
+        if not verd.violations:
+            raise
+        # never let a tool problem hide violations that were already found
+        vlib.log("TOOL-ERROR after violations were found: %s" % e)
     probe_exclusions(stats)
     ev.exhaustive = True
     ev.extra["tlc_parts"] = stats["tlc"]
